@@ -1,4 +1,8 @@
-/* Route OpenSSL's allocations through wrapalloc's tracker (never refused). */
+/*
+ * Route OpenSSL's allocations through wrapalloc's tracker.  They are never
+ * refused unless the OpenSSL failpoint is armed (wa_ossl_fail_at in
+ * wrapalloc.c, used by the C20 DH fault enumeration).
+ */
 #include <openssl/crypto.h>
 
 #include "wrapalloc.h"
